@@ -12,6 +12,8 @@ import (
 	"errors"
 	"fmt"
 	"net/http"
+	"os"
+	"path/filepath"
 	"reflect"
 	"sort"
 	"strings"
@@ -38,6 +40,18 @@ type Case struct {
 	Cache      bool   `json:"cache,omitempty"`
 	Wrappers   bool   `json:"wrappers,omitempty"`  // judge TLSTransport and TLSClient as well
 	Handshake  string `json:"handshake,omitempty"` // "", good, rogue, tls11: handshake against that server
+	// Prev: the file slots name paths that held other material when an earlier call read them (a rotated CA bundle,
+	// a renewed certificate, a file that has since been removed or has appeared).
+	Prev *Prev `json:"prev,omitempty"`
+
+	rot map[string]string // kind -> path of the rotating file (set by Check when Prev is given)
+}
+
+// Prev is what the three file paths held during the earlier call ("" : the slot was not set in that call).
+type Prev struct {
+	CertFile string `json:"cert_file,omitempty"`
+	KeyFile  string `json:"key_file,omitempty"`
+	CAFile   string `json:"ca_file,omitempty"`
 }
 
 var (
@@ -95,18 +109,42 @@ func file(m *material, kind, slot string) string {
 	return m.files[kind+":"+slot]
 }
 
+// place puts the material of a slot at the rotating path of its kind and returns the path ("" for an unset slot).
+func place(m *material, rot map[string]string, kind, slot string) (string, error) {
+	if slot == "" {
+		return "", nil
+	}
+	path := rot[kind]
+	_ = os.Remove(path)
+	if slot == "missing" {
+		return path, nil
+	}
+	raw, err := os.ReadFile(file(m, kind, slot))
+	if err != nil {
+		return "", err
+	}
+	return path, os.WriteFile(path, raw, 0o600)
+}
+
+func (c Case) slotPath(m *material, kind, slot string) string {
+	if c.rot != nil && slot != "" {
+		return c.rot[kind]
+	}
+	return file(m, kind, slot)
+}
+
 func (c Case) instantiate(m *material) *live {
 	l := &live{cbCalls: new(int32)}
 	o := &l.opts
-	o.Certificate = file(m, "cert", c.CertFile)
-	o.Key = file(m, "key", c.KeyFile)
+	o.Certificate = c.slotPath(m, "cert", c.CertFile)
+	o.Key = c.slotPath(m, "key", c.KeyFile)
 	if c.LoadedCert != "" {
 		o.LoadedCertificate = m.certs[c.LoadedCert]
 	}
 	if c.LoadedKey != "" {
 		o.LoadedKey = m.keys[c.LoadedKey]
 	}
-	o.CA = file(m, "ca", c.CAFile)
+	o.CA = c.slotPath(m, "ca", c.CAFile)
 	if c.LoadedCA != "" {
 		o.LoadedCA = m.cas[c.LoadedCA]
 	}
@@ -256,6 +294,40 @@ func Check(c Case) *kit.Violation {
 		cfg *tls.Config
 		err error
 	)
+	if c.Prev != nil {
+		if !in(c.Prev.CertFile, certFiles) || !in(c.Prev.KeyFile, keyFiles) || !in(c.Prev.CAFile, caFiles) {
+			return kit.Failf("bad case %+v", c)
+		}
+		dir, derr := os.MkdirTemp(m.dir, "rot")
+		if derr != nil {
+			return kit.Failf("harness: %v", derr)
+		}
+		defer os.RemoveAll(dir)
+		c.rot = map[string]string{"cert": filepath.Join(dir, "cert.pem"), "key": filepath.Join(dir, "key.pem"), "ca": filepath.Join(dir, "ca.pem")}
+		var po client.TLSClientOptions
+		var perr error
+		if po.Certificate, perr = place(m, c.rot, "cert", c.Prev.CertFile); perr == nil {
+			if po.Key, perr = place(m, c.rot, "key", c.Prev.KeyFile); perr == nil {
+				po.CA, perr = place(m, c.rot, "ca", c.Prev.CAFile)
+			}
+		}
+		if perr != nil {
+			return kit.Failf("harness: %v", perr)
+		}
+		// the earlier call: whatever it returns, it must not influence what a later call makes of the same paths
+		if v := kit.Guard("client.TLSClientAuth (earlier call)", func() { _, _ = client.TLSClientAuth(po) }); v != nil {
+			return v
+		}
+		for _, ks := range [][2]string{{"cert", c.CertFile}, {"key", c.KeyFile}, {"ca", c.CAFile}} {
+			if ks[1] == "" {
+				_ = os.Remove(c.rot[ks[0]])
+				continue
+			}
+			if _, perr := place(m, c.rot, ks[0], ks[1]); perr != nil {
+				return kit.Failf("harness: %v", perr)
+			}
+		}
+	}
 	l := c.instantiate(m)
 	if v := kit.Guard("client.TLSClientAuth", func() { cfg, err = client.TLSClientAuth(l.opts) }); v != nil {
 		return v
@@ -344,6 +416,9 @@ func (c Case) describe() string {
 	}
 	if c.Cache {
 		add("ClientSessionCache", "set")
+	}
+	if c.Prev != nil {
+		add("[earlier call read the same paths holding: Certificate", c.Prev.CertFile+" Key="+c.Prev.KeyFile+" CA="+c.Prev.CAFile+"]")
 	}
 	if len(parts) == 0 {
 		return "{no option}"
